@@ -44,7 +44,9 @@ CONFIG = dict(
          "timers armed with zero / negative delay from the service and from a foreign goroutine, and notifies to up to 12 sibling actors sharing A's dispatcher while A's goroutine is kept busy (more runs pending than the 9-slot channel holds); handlers dwell inside the service by virtual sleep / yield / spin. A third of the cases switch both event centres to direct mode (`evmode chan=0`: SetLocalUseChan(false), "
          "local events then published by the owner only, global events by owner or foreign goroutines and still required on the owner's goroutine); a third end with `stop`: client "
          "connections open, A inside a long piece with up to 200 closures queued, its run service stopped by a foreign goroutine or by the piece itself, then the connections close "
-         "(how many queued closures still run is not compared; nothing of A may run off its goroutine)."
+         "(how many queued closures still run is not compared; nothing of A may run off its goroutine). Further ops: `anon` (posted closures and client sessions on two "
+         "services created with the EMPTY run-service name, one optionally held busy), `flood` (up to 1500 local events — more than the 999-slot queue — published by a foreign goroutine "
+         "while the owner is stalled, or up to 900 by the owner itself), `selfreq` (requests to the service's own pid answered synchronously or from a helper goroutine)."
          " One evaluation = one burst: per service and entry kind "
          "(post, tmr, tz, lev, dlev, gev, req, mute, raw, ntf, slow, sib, rsp, tmo, sfl, sadd, smsg, srem) the number of entries, the set of goroutines (canonical numbering) and "
          "the largest number of pieces of the service's code in progress at once (another goroutine or a nested piece), compared with the serial model's observation and checked by the monitor predicate; "
